@@ -201,6 +201,8 @@ def run(ctx):
               "scope guard clears action context, invoking ruleset and ruleset cgroup",
               "no scope guard in runOnceImpl clears action context, invoking ruleset and ruleset cgroup")
 
+    from .C05 import pause_field_writers
+    pause_field_writers(ctx)
     # ---- 5. plugins return ASYNC_PAUSED only on documented edges
     krun = ctx.fn1("Oomd::BaseKillPlugin::run")
     fk = Flow(P, krun, cg=ctx.cg)
